@@ -664,8 +664,12 @@ class Arbiter(object):
             rlist, wlist, xlist = select.select(sockets, [], [], 0)
             if rlist:
                 self.socket_event = True
-                self._start_watchers()
+                self._start_watchers(self._iter_stopped_on_demand_watchers)
                 self.socket_event = False
+
+    def _iter_stopped_on_demand_watchers(self):
+        return [w for w in self.iter_watchers()
+                if w.on_demand and w.is_stopped()]
 
     @synchronized("arbiter_reload")
     @gen.coroutine
